@@ -3447,11 +3447,20 @@ def commit_tree_changes(
         else:
             nested_changes.setdefault(dirname, []).append((subpath, new_mode, new_sha))
     for name, subchanges in nested_changes.items():
+        orig_subtree_id: ObjectID | Tree
         try:
-            orig_subtree_id: ObjectID | Tree = tree_obj[name][1]
+            orig_mode, orig_subtree_id = tree_obj[name]
         except KeyError:
             # For new directories, pass an empty Tree object
             orig_subtree_id = Tree()
+        else:
+            if not stat.S_ISDIR(orig_mode):
+                # name is not (or, after the changes above, no longer) a
+                # directory: there is nothing left to delete below it, and
+                # anything added below it replaces it with a new directory.
+                if all(sha is None for _path, _mode, sha in subchanges):
+                    continue
+                orig_subtree_id = Tree()
         subtree_id = commit_tree_changes(object_store, orig_subtree_id, subchanges)
         subtree = object_store[subtree_id]
         assert isinstance(subtree, Tree)
